@@ -15,6 +15,9 @@ echo "|---|---|---|---|"
 } > $out
 run_one() { # patch ids...
   local patch="$1"; shift
+  # FIRST_ONLY=1: only the first listed check of every patch (the property's own check, or the
+  # strongest one where the own check is end-to-end and known not to see the defect)
+  if [ "${FIRST_ONLY:-0}" = "1" ]; then set -- "$1"; fi
   selftest/run_mutant.sh "$patch" "$@" 2>&1 | grep -E "^C[0-9]+ exit=" | while read -r id ex rest; do
     sig=$(echo "$rest" | sed -E 's/violation signature=([^ ]+).*/\1/' | cut -c1-110)
     echo "| $(basename $(dirname $patch))/$(basename $patch) | $id | ${ex#exit=} | $sig |" >> $out
